@@ -725,7 +725,7 @@ func (c *CreateViewStatement) Format(opts FormatOptions) string {
 
 	if c.WithOption != "" {
 		sb.WriteString(f.clauseSep())
-		sb.WriteString(f.kw(c.WithOption))
+		sb.WriteString(f.kw("WITH " + c.WithOption))
 	}
 
 	if opts.AddSemicolon {
